@@ -103,17 +103,33 @@ func (cp *CertificatePoliciesData) MarshalJSON() ([]byte, error) {
 			cpsJSON.CPSUri = append(cpsJSON.CPSUri, uri)
 		}
 
-		for idx2, explicit_text := range cp.ExplicitTexts[idx] {
-			uNoticeData := UserNoticeData{}
-			uNoticeData.ExplicitText = explicit_text
-			noticeRef := NoticeReference{}
-			if len(cp.NoticeRefOrganization[idx]) > 0 {
-				organization := cp.NoticeRefOrganization[idx][idx2]
-				noticeRef.Organization = organization
-				noticeRef.NoticeNumbers = cp.NoticeRefNumbers[idx][idx2]
-				uNoticeData.NoticeReference = append(uNoticeData.NoticeReference, noticeRef)
+		if idx < len(cp.UserNotices) && len(cp.UserNotices[idx]) > 0 {
+			// The parser keeps each user notice with its own (optional) explicit
+			// text and (optional) notice reference. The flat lists below are not
+			// index-aligned: a notice may carry only one of the two parts.
+			for _, un := range cp.UserNotices[idx] {
+				uNoticeData := UserNoticeData{}
+				if un.ExplicitText != nil {
+					uNoticeData.ExplicitText = *un.ExplicitText
+				}
+				if un.NoticeReference != nil {
+					uNoticeData.NoticeReference = append(uNoticeData.NoticeReference, *un.NoticeReference)
+				}
+				cpsJSON.UserNotice = append(cpsJSON.UserNotice, uNoticeData)
 			}
-			cpsJSON.UserNotice = append(cpsJSON.UserNotice, uNoticeData)
+		} else {
+			for idx2, explicit_text := range cp.ExplicitTexts[idx] {
+				uNoticeData := UserNoticeData{}
+				uNoticeData.ExplicitText = explicit_text
+				noticeRef := NoticeReference{}
+				if idx2 < len(cp.NoticeRefOrganization[idx]) && idx2 < len(cp.NoticeRefNumbers[idx]) {
+					organization := cp.NoticeRefOrganization[idx][idx2]
+					noticeRef.Organization = organization
+					noticeRef.NoticeNumbers = cp.NoticeRefNumbers[idx][idx2]
+					uNoticeData.NoticeReference = append(uNoticeData.NoticeReference, noticeRef)
+				}
+				cpsJSON.UserNotice = append(cpsJSON.UserNotice, uNoticeData)
+			}
 		}
 
 		policies = append(policies, cpsJSON)
